@@ -115,6 +115,25 @@ def _unroll_comp(self, n):
     return n
 
 
+def _visit_Subscript(self, n):
+    """a[slice(p, q), slice(r, s)] is a[p:q, r:s] (slice objects built by the slice builtin, directly in the subscript)"""
+    self.generic_visit(n)
+
+    def conv(e):
+        if isinstance(e, ast.Call) and isinstance(e.func, ast.Name) and e.func.id == "slice" and not e.keywords and 1 <= len(e.args) <= 3 and not any(isinstance(a, ast.Starred) for a in e.args):
+            none = lambda x: None if (isinstance(x, ast.Constant) and x.value is None) else x
+            if len(e.args) == 1:
+                return ast.copy_location(ast.Slice(lower=None, upper=none(e.args[0]), step=None), e)
+            return ast.copy_location(ast.Slice(lower=none(e.args[0]), upper=none(e.args[1]), step=none(e.args[2]) if len(e.args) == 3 else None), e)
+        return e
+    if isinstance(n.slice, ast.Tuple):
+        n.slice.elts = [conv(x) for x in n.slice.elts]
+    else:
+        n.slice = conv(n.slice)
+    return n
+
+
+_Exprs.visit_Subscript = _visit_Subscript
 _Exprs.visit_ListComp = _unroll_comp
 _Exprs.visit_Call = _visit_Call
 
